@@ -181,6 +181,9 @@ func runWriterChecks(prog *Program, prop string) []tableResult {
 		if wc.Updaters {
 			name = "updaters/" + wc.Field
 		}
+		if wc.Callers {
+			name = "callers/" + wc.Field
+		}
 		var bad []string
 		nStores := 0
 		for fn := range ssautil.AllFunctions(prog.ssa) {
@@ -195,6 +198,30 @@ func runWriterChecks(prog *Program, prop string) []tableResult {
 				continue
 			}
 			rel := funcRelName(top)
+			if wc.Callers {
+				full := strings.TrimPrefix(strings.TrimPrefix(top.Pkg.Pkg.Path(), prog.module), "/") + "." + rel
+				for _, b := range fn.Blocks {
+					for _, ins := range b.Instrs {
+						ci, ok := ins.(ssa.CallInstruction)
+						if !ok {
+							continue
+						}
+						callee := ci.Common().StaticCallee()
+						if callee == nil || callee.Pkg == nil {
+							continue
+						}
+						cn := strings.TrimPrefix(strings.TrimPrefix(callee.Pkg.Pkg.Path(), prog.module), "/") + "." + funcRelName(callee)
+						if cn != wc.Field {
+							continue
+						}
+						nStores++
+						if !allowed[full] {
+							bad = append(bad, full+" calls it")
+						}
+					}
+				}
+				continue
+			}
 			for _, b := range fn.Blocks {
 				for _, ins := range b.Instrs {
 					fa, ok := ins.(*ssa.FieldAddr)
@@ -314,7 +341,7 @@ func runWriterChecks(prog *Program, prop string) []tableResult {
 			}
 		}
 		for _, f := range wc.Funcs {
-			if wc.Updaters {
+			if wc.Updaters || wc.Callers {
 				i := strings.Index(f, ".")
 				key := prog.module + "/" + f[:i] + "." + f[i+1:]
 				if strings.HasPrefix(f, ".") {
@@ -345,6 +372,9 @@ func runWriterChecks(prog *Program, prop string) []tableResult {
 		r.Detail = fmt.Sprintf("%d stores to %s.%s in the module, all inside %s", nStores, wc.Pkg, wc.Field, strings.Join(wc.Funcs, ", "))
 		if wc.Updaters {
 			r.Detail = fmt.Sprintf("%d updates of the cell in %s.%s in the module, all inside %s", nStores, wc.Pkg, wc.Field, strings.Join(wc.Funcs, ", "))
+		}
+		if wc.Callers {
+			r.Detail = fmt.Sprintf("%d calls of %s in the module, all inside %s", nStores, wc.Field, strings.Join(wc.Funcs, ", "))
 		}
 		if wc.Closers {
 			r.Detail = fmt.Sprintf("%d close() of the channel in %s.%s in the module, all inside %s; the channel value travels nowhere else", nStores, wc.Pkg, wc.Field, strings.Join(wc.Funcs, ", "))
